@@ -45,7 +45,10 @@ CONSTANTS Conns,       \* connection ids
           DrainMode,   \* "inner": tcp.go:307 as written (drain through the decrypting reader); "raw": drain the raw conn
           Strict,      \* TRUE: a client does not send at the very instant its deadline is due (behaviour generation)
           WithServe,   \* TRUE: the listener may be closed while handlers run
-          Hist         \* TRUE: keep the action history tr (behaviour generation); FALSE in exhaustive runs
+          Hist,        \* TRUE: keep the action history tr (behaviour generation); FALSE in exhaustive runs
+          SlackEarly, SlackLate,  \* tolerance of time comparisons (0 in the model and under virtual time):
+                                  \* clock granularity / how late a close may be observed
+          SlackSched              \* how long before a deadline bytes must be sent to be surely read before it
 
 VARIABLES st,    \* [Conns -> mechanism state of one connection incl. the two wires]
           ob,    \* [Conns -> scenario ghosts + what the observers saw]
@@ -64,6 +67,9 @@ DataOf(log) == SelectSeq(log, LAMBDA x : x > 0)
 Has(log, x) == \E i \in 1..Len(log) : log[i] = x
 Min(a, b) == IF a < b THEN a ELSE b
 Max(a, b) == IF a > b THEN a ELSE b
+\* numbering of the token kinds in the history (CSend event value = code*10 + v); harness/cmd/tcpconn/plan.go
+KindCode(k) == CASE k = "pre" -> 1 [] k = "addr" -> 2 [] k = "addrplus" -> 3 [] k = "addrpart" -> 4 [] k = "addrrest" -> 5
+                 [] k = "badaddr" -> 6 [] k = "data" -> 7 [] k = "bad" -> 8 [] k = "junk" -> 9
 W(tok) == IF tok.k = "pre" THEN tok.v ELSE 1       \* wire weight of a client token
 RECURSIVE SumW(_)
 SumW(s) == IF s = <<>> THEN 0 ELSE W(Head(s)) + SumW(Tail(s))
@@ -83,6 +89,7 @@ InitOb ==
     acceptAt |-> -1, closeAt |-> -1, cfinAt |-> -1, preDoneAt |-> -1, lastSendAt |-> -1,
     tfinPolite |-> FALSE,     \* the target sent its FIN only after it had seen the proxy's FIN
     drain |-> "",             \* how the probe drain ended
+    timeout |-> Timeout,
     wire |-> [cs |-> 0, tr |-> 0, ts |-> 0, cr |-> 0] ]
 
 Init == /\ st \in [Conns -> {InitConn(h, k) : h \in HsKinds, k \in TgtKinds}]
@@ -138,7 +145,7 @@ ClientSend(c, tok) ==
                     !.wire.cs = @ + W(tok),
                     !.lastSendAt = now,
                     !.preDoneAt = IF @ = -1 /\ tok.k = "pre" /\ Units(c) + tok.v = 2 THEN now ELSE @],
-          "CSend", Len(o.csent) + 1)
+          "CSend", KindCode(tok.k) * 10 + tok.v)
 
 ClientFin(c) ==
   /\ st[c].pc \notin {"idle", "reset"} /\ st[c].csock = "open" /\ ~st[c].cfin
@@ -252,7 +259,7 @@ ReadAddrTake(c) ==
           ob[c], "ReadAddr", 0)
 ReadAddrFail(c) ==
   /\ st[c].pc = "readaddr" /\ (Due(c) \/ (st[c].cq = <<>> /\ st[c].cfin))
-  /\ Step(c, [st[c] EXCEPT !.addrOK = FALSE, !.pc = "cleardl"], ob[c], "ReadAddrFail", 0)
+  /\ Step(c, [st[c] EXCEPT !.addrOK = FALSE, !.pc = "cleardl", !.buf50 = FALSE], ob[c], "ReadAddrFail", 0)
 \* :353 outerConn.SetReadDeadline(time.Time{})
 ClearDeadline(c) ==
   /\ st[c].pc = "cleardl"
@@ -421,120 +428,166 @@ LiveSpec == Spec /\ Fair
 
 (* ======================================================================== *)
 (* PROPERTY LAYER                                                           *)
+(* Every predicate P(s, o) speaks about ONE connection and reads only       *)
+(*   s: what the peers did   (hs, tk, cfin, tfin, trst)                     *)
+(*   o: what was sent and what the observers saw (the fields of InitOb)     *)
+(* so that TLC can evaluate the same text on the model (s = st[c],          *)
+(* o = ob[c], every reachable state) and on records of the real code        *)
+(* (TcpConnTrace: s, o built from the harness' logs).  Times are compared   *)
+(* with SlackEarly/SlackLate (0 in the model and under virtual time).       *)
 (* ======================================================================== *)
-Payload(c) == Ids(NData(c))                       \* what the client sent after the address header
-Closed(c)  == ob[c].closeAt # -1
-Reported(c) == \E i \in 1..Len(ob[c].mlog) : ob[c].mlog[i].m = "Closed"
-MCount(c, m) == Len(SelectSeq(ob[c].mlog, LAMBDA x : x.m = m))
-ClosedRec(c) == ob[c].mlog[Len(ob[c].mlog)]
-DeadlineOf(c) == ob[c].acceptAt + Timeout
+OHasBad(o)  == \E i \in 1..Len(o.csent) : o.csent[i].k \in {"bad", "badaddr"}
+ONData(o)   == Len(SelectSeq(o.csent, LAMBDA x : x.k \in {"data", "addrplus"}))
+Payload(o)  == Ids(ONData(o))                     \* what the client sent after the address header
+Closed(o)   == o.closeAt # -1
+Reported(o) == \E i \in 1..Len(o.mlog) : o.mlog[i].m = "Closed"
+MCount(o, m) == Len(SelectSeq(o.mlog, LAMBDA x : x.m = m))
+ClosedRec(o) == o.mlog[Len(o.mlog)]
+DeadlineOf(o) == o.acceptAt + o.timeout
 \* the opener is one that must authenticate: valid, fresh, and its 50th byte was sent before the deadline
-\* (sent exactly AT the deadline instant: either outcome is acceptable)
-MayAuth(c)  == st[c].hs = "valid" /\ ob[c].preDoneAt # -1 /\ (ob[c].acceptAt = -1 \/ ob[c].preDoneAt <= DeadlineOf(c))
-MustAuth(c) == st[c].hs = "valid" /\ ob[c].preDoneAt # -1 /\ (ob[c].acceptAt = -1 \/ ob[c].preDoneAt < DeadlineOf(c))
-MustFail(c) == st[c].hs # "valid" \/ (ob[c].acceptAt # -1 /\ ob[c].preDoneAt > DeadlineOf(c))
-                \/ (ob[c].preDoneAt = -1 /\ Reported(c))
+\* (sent AT the deadline, within the slack: either outcome is acceptable)
+MayAuth(s, o)  == s.hs = "valid" /\ o.preDoneAt # -1 /\ (o.acceptAt = -1 \/ o.preDoneAt <= DeadlineOf(o) + SlackSched)
+MustAuth(s, o) == s.hs = "valid" /\ o.preDoneAt # -1 /\ (o.acceptAt = -1 \/ o.preDoneAt < DeadlineOf(o) - SlackSched)
+MustFail(s, o) == s.hs # "valid" \/ (o.acceptAt # -1 /\ o.preDoneAt > DeadlineOf(o) + SlackSched)
+                   \/ (o.preDoneAt = -1 /\ Reported(o))
 \* a connection on which nothing went wrong and whose target was dialled
-Clean(c) == MustAuth(c) /\ st[c].tk = "ok" /\ ~HasBad(c) /\ ~st[c].trst /\ ob[c].dials > 0
-
-TypeOK == /\ now \in 0..MaxNow /\ lst \in {"open", "closed"} /\ srv \in {"accept", "cancel", "wait", "ret"}
-          /\ \A c \in Conns : st[c].got \in 0..2 /\ Len(st[c].left) <= 1
+Clean(s, o) == MustAuth(s, o) /\ s.tk = "ok" /\ ~OHasBad(o) /\ ~s.trst /\ o.dials > 0
 
 (* ---- C02 --------------------------------------------------------------- *)
 \* no loss, duplication, reordering, invention - on every connection, clean or not
-C02_TargetPrefix == \A c \in Conns : IsPrefix(DataOf(ob[c].tlog), Payload(c))
-C02_ClientPrefix == \A c \in Conns : IsPrefix(DataOf(ob[c].clog), Ids(ob[c].tsent))
+C02_TargetPrefix(s, o) == IsPrefix(DataOf(o.tlog), Payload(o))
+C02_ClientPrefix(s, o) == IsPrefix(DataOf(o.clog), Ids(o.tsent))
 \* a half-close reaches the peer only after all data of that direction, and only if the sender did half-close
-C02_FinToTargetAfterAll ==
-  \A c \in Conns : Clean(c) /\ Has(ob[c].tlog, 0) =>
-     /\ st[c].cfin /\ DataOf(ob[c].tlog) = Payload(c) /\ ob[c].tlog[Len(ob[c].tlog)] = 0
-C02_FinToClientAfterAll ==
-  \A c \in Conns : Clean(c) /\ Has(ob[c].clog, 0) =>
-     /\ st[c].tfin /\ DataOf(ob[c].clog) = Ids(ob[c].tsent) /\ ob[c].clog[Len(ob[c].clog)] = 0
-\* independence: the end of one direction does not stop the other
-C02_Independent ==
-  \A c \in Conns : Clean(c) /\ st[c].tgt = "up" =>
-     /\ (~(st[c].tfin /\ st[c].tq = <<>>) => st[c].pc = "t2c")
-     /\ (~(st[c].cfin /\ st[c].cq = <<>> /\ st[c].left = <<>>) => st[c].pa = "copy")
+C02_FinToTargetAfterAll(s, o) ==
+  Clean(s, o) /\ Has(o.tlog, 0) => s.cfin /\ DataOf(o.tlog) = Payload(o) /\ o.tlog[Len(o.tlog)] = 0
+C02_FinToClientAfterAll(s, o) ==
+  Clean(s, o) /\ Has(o.clog, 0) => s.tfin /\ DataOf(o.clog) = Ids(o.tsent) /\ o.clog[Len(o.clog)] = 0
 \* a clean connection is reported only when both streams were delivered completely, with both FINs
-C02_CompleteAtClose ==
-  \A c \in Conns : Clean(c) /\ Reported(c) /\ ob[c].dials > 0 =>
-     /\ DataOf(ob[c].tlog) = Payload(c) /\ Has(ob[c].tlog, 0)
-     /\ DataOf(ob[c].clog) = Ids(ob[c].tsent) /\ Has(ob[c].clog, 0)
-     /\ ClosedRec(c).s = "OK"
-\* liveness (LiveSpec): every accepted connection ends, hence (CompleteAtClose) everything sent is delivered
-C02_Live == \A c \in Conns : (st[c].pc = "start") ~> (st[c].pc = "done")
+C02_CompleteAtClose(s, o) ==
+  Clean(s, o) /\ Reported(o) =>
+     /\ DataOf(o.tlog) = Payload(o) /\ Has(o.tlog, 0)
+     /\ DataOf(o.clog) = Ids(o.tsent) /\ Has(o.clog, 0)
+     /\ ClosedRec(o).s = "OK"
 
 (* ---- C06 --------------------------------------------------------------- *)
-C06_Silent == \A c \in Conns : ~MayAuth(c) => ob[c].wire.cr = 0 /\ DataOf(ob[c].clog) = <<>>
-C06_NoEarlyClose ==
-  \A c \in Conns : MustFail(c) /\ Closed(c) =>
-     \/ (ob[c].cfinAt # -1 /\ ob[c].cfinAt <= ob[c].closeAt)
-     \/ ob[c].closeAt >= DeadlineOf(c)
+C06_Silent(s, o) == ~MayAuth(s, o) => o.wire.cr = 0 /\ DataOf(o.clog) = <<>>
+C06_NoEarlyClose(s, o) ==
+  MustFail(s, o) /\ Closed(o) =>
+     \/ (o.cfinAt # -1 /\ o.cfinAt <= o.closeAt + SlackEarly)
+     \/ o.closeAt >= DeadlineOf(o) - SlackEarly
 \* same instant whatever was sent: a function of the accept time (and of the client's own FIN) only
-C06_CloseInstant ==
-  \A c \in Conns : MustFail(c) /\ Closed(c) =>
-     ob[c].closeAt = IF ob[c].cfinAt # -1 THEN Min(Max(ob[c].cfinAt, ob[c].acceptAt), DeadlineOf(c)) ELSE DeadlineOf(c)
+ExpectedClose(o) == IF o.cfinAt # -1 THEN Min(Max(o.cfinAt, o.acceptAt), DeadlineOf(o)) ELSE DeadlineOf(o)
+C06_CloseNotEarly(s, o) == MustFail(s, o) /\ Closed(o) => o.closeAt >= ExpectedClose(o) - SlackEarly
+C06_CloseNotLate(s, o)  == MustFail(s, o) /\ Closed(o) => o.closeAt <= ExpectedClose(o) + SlackLate
 \* a client that was quiet before the close sees a normal close (FIN), never a reset, and nothing else
-C06_NormalClose ==
-  \A c \in Conns : MustFail(c) /\ Closed(c) =>
-     /\ Len(ob[c].clog) = 1
-     /\ (ob[c].lastSendAt < ob[c].closeAt => ob[c].clog = <<0>>)
-\* bounded: once the deadline is due, an unauthenticated connection is never blocked (with Tick's urgency this
-\* means it closes in the same instant)
-C06_NotStuckAfterDeadline ==
-  \A c \in Conns : st[c].pc \in {"read50", "auth", "absorb", "probe"} /\ Due(c) => ~MainBlocked(c)
+C06_NormalClose(s, o) ==
+  MustFail(s, o) /\ Closed(o) =>
+     /\ Len(o.clog) = 1
+     /\ (o.lastSendAt < o.closeAt - SlackSched => o.clog = <<0>>)
 \* after authentication an invalid stream is drained: while the client keeps its side open the proxy neither closes,
 \* nor half-closes towards the target, nor (unless the target ended the stream on its own) towards the client
-C06_DrainHolds ==
-  \A c \in Conns : MustAuth(c) /\ HasBad(c) /\ ~st[c].cfin /\ st[c].tk = "ok" /\ ~st[c].trst =>
-     /\ ~Closed(c)
-     /\ ~Has(ob[c].tlog, 0)
-     /\ (Has(ob[c].clog, 0) => st[c].tfin /\ ~ob[c].tfinPolite)
+C06_DrainHolds(s, o) ==
+  MustAuth(s, o) /\ OHasBad(o) /\ ~s.cfin /\ s.tk = "ok" /\ ~s.trst =>
+     /\ ~Reported(o)
+     /\ ~Has(o.tlog, 0)
+     /\ ~Has(o.clog, -1)
+     /\ (Has(o.clog, 0) => s.tfin /\ ~o.tfinPolite)
 
 (* ---- C15 --------------------------------------------------------------- *)
 \* Open . Authenticated? . Probe? . Closed  (prefix-closed form)
-C15_Language ==
-  \A c \in Conns :
-    LET m == ob[c].mlog IN
+C15_Language(s, o) ==
+    LET m == o.mlog IN
     /\ (m # <<>> => m[1].m = "Open")
-    /\ MCount(c, "Open") <= 1 /\ MCount(c, "Auth") <= 1 /\ MCount(c, "Probe") <= 1 /\ MCount(c, "Closed") <= 1
-    /\ (Reported(c) => m[Len(m)].m = "Closed")
-    /\ ~(MCount(c, "Auth") = 1 /\ MCount(c, "Probe") = 1)
-C15_AuthOnlyIfAuthenticated == \A c \in Conns : MCount(c, "Auth") = 1 => MayAuth(c)
-C15_ProbeIffFailed ==
-  \A c \in Conns : Reported(c) =>
-     /\ (MustFail(c) => MCount(c, "Probe") = 1 /\ MCount(c, "Auth") = 0)
-     /\ (MustAuth(c) /\ ~MustFail(c) => MCount(c, "Probe") = 0 /\ MCount(c, "Auth") = 1)
-C15_ProbeBytes ==
-  \A c \in Conns : \A i \in 1..Len(ob[c].mlog) : ob[c].mlog[i].m = "Probe" =>
-     /\ ob[c].mlog[i].n[1] <= ob[c].wire.cs
-     /\ (ob[c].drain = "eof" => ob[c].mlog[i].n[1] = ob[c].wire.cs)
-     /\ (Reported(c) => ob[c].mlog[i].n[1] = ClosedRec(c).n[1])
-\* outcome classes
-ExpectedStatus(c) ==
-  LET h == st[c].hs
-      possible == ob[c].preDoneAt # -1 /\ ob[c].preDoneAt <= DeadlineOf(c)
-      certain  == ob[c].preDoneAt # -1 /\ ob[c].preDoneAt < DeadlineOf(c) IN
-  IF MustFail(c) THEN (IF certain /\ h # "garbage" THEN {} ELSE {"ERR_CIPHER"})
+    /\ MCount(o, "Open") <= 1 /\ MCount(o, "Auth") <= 1 /\ MCount(o, "Probe") <= 1 /\ MCount(o, "Closed") <= 1
+    /\ (Reported(o) => m[Len(m)].m = "Closed")
+    /\ ~(MCount(o, "Auth") = 1 /\ MCount(o, "Probe") = 1)
+C15_AuthOnlyIfAuthenticated(s, o) == MCount(o, "Auth") = 1 => MayAuth(s, o)
+C15_ProbeIffFailed(s, o) ==
+  Reported(o) =>
+     /\ (MustFail(s, o) => MCount(o, "Probe") = 1 /\ MCount(o, "Auth") = 0)
+     /\ (MustAuth(s, o) /\ ~MustFail(s, o) => MCount(o, "Probe") = 0 /\ MCount(o, "Auth") = 1)
+C15_ProbeBytes(s, o) ==
+  \A i \in 1..Len(o.mlog) : o.mlog[i].m = "Probe" =>
+     /\ o.mlog[i].n[1] <= o.wire.cs
+     /\ (o.drain = "eof" => o.mlog[i].n[1] = o.wire.cs)
+     /\ (Reported(o) => o.mlog[i].n[1] = ClosedRec(o).n[1])
+\* outcome classes: one status per class
+ExpectedStatus(s, o) ==
+  LET h == s.hs
+      possible == o.preDoneAt # -1 /\ o.preDoneAt <= DeadlineOf(o) + SlackSched
+      certain  == o.preDoneAt # -1 /\ o.preDoneAt < DeadlineOf(o) - SlackSched IN
+  IF MustFail(s, o) THEN (IF certain /\ h # "garbage" THEN {} ELSE {"ERR_CIPHER"})
                       \cup (IF possible /\ h = "replayC" THEN {"ERR_REPLAY_CLIENT"} ELSE {})
                       \cup (IF possible /\ h = "replayS" THEN {"ERR_REPLAY_SERVER"} ELSE {})
-  ELSE IF ~MustAuth(c) THEN {"ERR_CIPHER", "ERR_READ_ADDRESS", "ERR_ADDRESS", "ERR_CONNECT", "ERR_RELAY_CLIENT", "ERR_RELAY_TARGET", "OK"}
-  ELSE IF ob[c].dials = 0 /\ st[c].tk # "deny" THEN {"ERR_READ_ADDRESS"}
-  ELSE IF st[c].tk = "deny" THEN {"ERR_ADDRESS", "ERR_READ_ADDRESS"}
-  ELSE IF st[c].tk = "refuse" THEN {"ERR_CONNECT"}
-  ELSE IF HasBad(c) THEN {"ERR_RELAY_CLIENT"}
-  ELSE IF st[c].trst THEN {"ERR_RELAY_CLIENT", "ERR_RELAY_TARGET"}
+  ELSE IF ~MustAuth(s, o) THEN {"ERR_CIPHER", "ERR_READ_ADDRESS", "ERR_ADDRESS", "ERR_CONNECT", "ERR_RELAY_CLIENT", "ERR_RELAY_TARGET", "OK"}
+  ELSE IF o.dials = 0 /\ s.tk # "deny" THEN {"ERR_READ_ADDRESS"}
+  ELSE IF s.tk = "deny" THEN {"ERR_ADDRESS", "ERR_READ_ADDRESS"}
+  ELSE IF s.tk = "refuse" THEN {"ERR_CONNECT"}
+  ELSE IF OHasBad(o) THEN {"ERR_RELAY_CLIENT"}
+  ELSE IF s.trst THEN {"ERR_RELAY_CLIENT", "ERR_RELAY_TARGET"}
   ELSE {"OK"}
-C15_Status == \A c \in Conns : Reported(c) => ClosedRec(c).s \in ExpectedStatus(c)
-C15_OkIffComplete ==
-  \A c \in Conns : Reported(c) /\ Clean(c) /\ ob[c].dials > 0 => ClosedRec(c).s = "OK"
-C15_Counters ==
-  \A c \in Conns : Reported(c) =>
-     LET n == ClosedRec(c).n  w == ob[c].wire IN
+C15_Status(s, o) == Reported(o) => ClosedRec(o).s \in ExpectedStatus(s, o)
+C15_OkIffComplete(s, o) == Reported(o) /\ Clean(s, o) => ClosedRec(o).s = "OK"
+C15_Counters(s, o) ==
+  Reported(o) =>
+     LET n == ClosedRec(o).n  w == o.wire IN
      /\ n[1] <= w.cs /\ n[2] <= w.tr /\ n[3] <= w.ts /\ n[4] <= w.cr
-     /\ (ClosedRec(c).s = "OK" => n[1] = w.cs /\ n[2] = w.tr /\ n[3] = w.ts /\ n[4] = w.cr)
-     /\ (n[2] = Len(DataOf(ob[c].tlog)) /\ n[4] = Len(DataOf(ob[c].clog)))
+     /\ (ClosedRec(o).s = "OK" => n[1] = w.cs /\ n[2] = w.tr /\ n[3] = w.ts /\ n[4] = w.cr)
+
+\* families, as evaluated on records of the real code.  "Any" may be evaluated at any moment of a run (monotone in the
+\* observers' logs); "Final" only when the run is over and every observer has read to the end of its stream.
+PropsAny == {"C02_TargetPrefix", "C02_ClientPrefix", "C02_FinToTargetAfterAll", "C02_FinToClientAfterAll",
+             "C06_Silent", "C06_NoEarlyClose", "C06_DrainHolds", "C15_Language", "C15_AuthOnlyIfAuthenticated"}
+PropsFinal == PropsAny \cup {"C02_CompleteAtClose", "C06_CloseNotEarly", "C06_CloseNotLate", "C06_NormalClose",
+                             "C15_ProbeIffFailed", "C15_ProbeBytes", "C15_Status", "C15_OkIffComplete", "C15_Counters"}
+Holds(p, s, o) ==
+  CASE p = "C02_TargetPrefix" -> C02_TargetPrefix(s, o)
+    [] p = "C02_ClientPrefix" -> C02_ClientPrefix(s, o)
+    [] p = "C02_FinToTargetAfterAll" -> C02_FinToTargetAfterAll(s, o)
+    [] p = "C02_FinToClientAfterAll" -> C02_FinToClientAfterAll(s, o)
+    [] p = "C02_CompleteAtClose" -> C02_CompleteAtClose(s, o)
+    [] p = "C06_Silent" -> C06_Silent(s, o)
+    [] p = "C06_NoEarlyClose" -> C06_NoEarlyClose(s, o)
+    [] p = "C06_CloseNotEarly" -> C06_CloseNotEarly(s, o)
+    [] p = "C06_CloseNotLate" -> C06_CloseNotLate(s, o)
+    [] p = "C06_NormalClose" -> C06_NormalClose(s, o)
+    [] p = "C06_DrainHolds" -> C06_DrainHolds(s, o)
+    [] p = "C15_Language" -> C15_Language(s, o)
+    [] p = "C15_AuthOnlyIfAuthenticated" -> C15_AuthOnlyIfAuthenticated(s, o)
+    [] p = "C15_ProbeIffFailed" -> C15_ProbeIffFailed(s, o)
+    [] p = "C15_ProbeBytes" -> C15_ProbeBytes(s, o)
+    [] p = "C15_Status" -> C15_Status(s, o)
+    [] p = "C15_OkIffComplete" -> C15_OkIffComplete(s, o)
+    [] p = "C15_Counters" -> C15_Counters(s, o)
+Failing(ps, s, o) == {p \in ps : ~Holds(p, s, o)}
+
+(* ---- the same predicates as invariants of the model --------------------- *)
+TypeOK == /\ now \in 0..MaxNow /\ lst \in {"open", "closed"} /\ srv \in {"accept", "cancel", "wait", "ret"}
+          /\ \A c \in Conns : st[c].got \in 0..2 /\ Len(st[c].left) <= 1
+Inv_C02 == \A c \in Conns : Failing({"C02_TargetPrefix", "C02_ClientPrefix", "C02_FinToTargetAfterAll",
+                                     "C02_FinToClientAfterAll", "C02_CompleteAtClose"}, st[c], ob[c]) = {}
+Inv_C06 == \A c \in Conns : Failing({"C06_Silent", "C06_NoEarlyClose", "C06_CloseNotEarly", "C06_CloseNotLate",
+                                     "C06_NormalClose"}, st[c], ob[c]) = {}
+Inv_C06Drain == \A c \in Conns : C06_DrainHolds(st[c], ob[c])
+Inv_C15 == \A c \in Conns : Failing({"C15_Language", "C15_AuthOnlyIfAuthenticated", "C15_ProbeIffFailed", "C15_ProbeBytes",
+                                     "C15_Status", "C15_OkIffComplete", "C15_Counters"}, st[c], ob[c]) = {}
+\* model only: the counters are advanced by the very actions that move the bytes
+C15_CountersTrackDelivery ==
+  \A c \in Conns : st[c].cnt.pt = Len(DataOf(ob[c].tlog)) /\ st[c].cnt.pc = Len(DataOf(ob[c].clog))
+                   /\ st[c].cnt.pt = ob[c].wire.tr /\ st[c].cnt.pc = ob[c].wire.cr
+\* model only - independence: the end of one direction does not stop the other
+C02_Independent ==
+  \A c \in Conns : Clean(st[c], ob[c]) /\ st[c].tgt = "up" =>
+     /\ (~(st[c].tfin /\ st[c].tq = <<>>) => st[c].pc = "t2c")
+     /\ (~(st[c].cfin /\ st[c].cq = <<>> /\ st[c].left = <<>>) => st[c].pa = "copy")
+\* model only - the 50 key-search bytes are given back to the decrypting reader before anything else is decrypted
+C02_Buf50First == \A c \in Conns : st[c].buf50 => st[c].pc \in {"authd", "readaddr"} /\ ob[c].tlog = <<>>
+\* model only - bounded: once the deadline is due an unauthenticated connection is never blocked (with Tick's
+\* urgency it closes in the same instant)
+C06_NotStuckAfterDeadline ==
+  \A c \in Conns : st[c].pc \in {"read50", "auth", "absorb", "probe"} /\ Due(c) => ~MainBlocked(c)
+\* liveness (LiveSpec): every accepted connection ends, hence (CompleteAtClose) everything sent is delivered
+C02_Live == \A c \in Conns : (st[c].pc = "start") ~> (st[c].pc = "done")
 
 (* ---- C18 (TCP part) ---------------------------------------------------- *)
 \* no goroutine, no socket survives
@@ -543,14 +596,17 @@ C18_NoLeak ==
                                /\ st[c].tgt # "up"
                                /\ st[c].csock # "open" \/ st[c].pc = "idle"
 C18_ServeWaits == srv = "ret" => Running = {} /\ lst = "closed"
-\* every step touches at most one connection (a failure on i leaves j untouched)
+\* every step touches at most one connection (a failure on i leaves j untouched); closing the listener makes the
+\* kernel reset every connection that was never accepted
 C18_Isolation == [][lst' = lst => \E i \in Conns : \A j \in Conns \ {i} : st[j]' = st[j] /\ ob[j]' = ob[j]]_<<st, ob, lst>>
 \* the target socket never outlives the handler, the client socket is closed by the time the handler is done
 C18_SocketsFollowHandler ==
   \A c \in Conns : st[c].pc \in {"exit", "done"} => st[c].csock = "closed" /\ st[c].tgt # "up" /\ st[c].pa \in {"none", "done"}
-\* every handler path terminates (LiveSpec); together with deadlock checking: no state without a successor but Terminal
+\* every handler path terminates (LiveSpec); with deadlock checking: no state without a successor except Terminal
 C18_Terminates == \A c \in Conns : (st[c].pc = "start") ~> (st[c].pc = "done")
 C18_ServeReturns == WithServe => <>(srv = "ret")
 
 View == <<st, ob, now, lst, srv>>
+\* for properties that speak about the mechanism state only (C18): observations do not distinguish states
+ViewMech == <<st, now, lst, srv>>
 ===============================================================================
